@@ -7,7 +7,7 @@ exception Bad of string
 let parse_in (ins : string list) : listener * tunnel * inner list =
   match ins with
   | l :: t :: rest ->
-      let l' = (match l with "Lp" -> LPlain | "Ls" -> LShaped | "Lt" -> LTls | _ -> raise (Bad l)) in
+      let l' = (match l with "Lp" -> LPlain | "Ls" -> LShaped | "Lt" -> LTls | "Lx" -> LShapedTls | _ -> raise (Bad l)) in
       let t' = (match t with "Tt" -> TunTls | "Tp" -> TunPlain | "Tn" -> NoTunnel | _ -> raise (Bad t)) in
       let req s =
         let f = (match s.[0] with 'o' -> FOrigin | 'a' -> FAbsHttp | 's' -> FAbsHttps | 'n' -> FNoHost
@@ -27,7 +27,8 @@ let parse_obs (t : string) : obs =
           f_host = (match h with "example.com:443" -> HAuth | "example.com" -> HHeader
                                | "other.test" -> HUrl | "-" -> HEmpty | _ -> HOther);
           f_secure = (match sec with "1" -> true | "0" -> false | _ -> raise (Bad t));
-          f_tls = (match tls with "1" -> true | "0" -> false | _ -> raise (Bad t));
+          (* 2 = non-nil but not the state the client negotiated on this connection *)
+          f_tls = (match tls with "1" -> true | "0" | "2" -> false | _ -> raise (Bad t));
           f_sess = nat sess;
           f_up = (match up with "tls" -> UpTls | "plain" -> UpPlain | "none" -> UpNone | "both" -> UpBoth
                               | _ -> raise (Bad t));
@@ -91,7 +92,7 @@ let judge _name ins outs =
         VPropfail (clause_name c,
                    Printf.sprintf "%s observed=%s repaired-model=%s matches-unrepaired-model=%b"
                      (culprit t reqs os toks)
-                     (String.concat "_" (List.map pr_obs os)) (String.concat "_" (List.map pr_obs want))
+                     (String.concat "_" outs) (String.concat "_" (List.map pr_obs want))
                      (agrees false l t reqs os))
     | None ->
         if agrees true l t reqs os then VOk (List.length reqs >= 2)
